@@ -117,11 +117,11 @@ def heapRun (nodes maxreps ops : String) : String :=
     let (h, out) := acc
     let r : Heap.Heap × Except Heap.Err Unit :=
       match o.splitOn "." with
-      | ["A", p, c, v] => Heap.append (rules (v == "1")) p.toNat! c.toNat! h
+      | ["A", p, c, v] => Heap.appendP (rules (v == "1")) h.length p.toNat! c.toNat! h
       | ["I", p, c, li, v] => Heap.insertAt (rules (v == "1")) p.toNat! c.toNat! li.toNat! h
       | ["R", p, c] => Heap.remove p.toNat! c.toNat! h
       | ["X", p, a, b, v] => Heap.replaceChild (rules (v == "1")) p.toNat! a.toNat! b.toNat! h
-      | ["S", p, c, v] => Heap.setParent (rules (v == "1")) p.toNat! c.toNat! h
+      | ["S", p, c, v] => Heap.setParentP (rules (v == "1")) h.length p.toNat! c.toNat! h
       | ["U", c] => Heap.unsetParent c.toNat! h
       | ["N"] => (h, .ok ())
       | ["E", p, c, i, v] => Heap.setChild (rules (v == "1")) p.toNat! c.toNat! (i.toInt?.getD 0) h
